@@ -428,14 +428,14 @@ impl StaticMetadata {
 
         for ni in named_instances.iter() {
             let instance_name = ni.name.as_str();
+            // `names` is a HashMap: ask whether *any* subfamily record has this string,
+            // not whether the first record that has it happens to be a subfamily one.
             if ni.location == default_instance_location
-                && names
-                    .iter()
-                    .find_map(|(key, string)| (*string == instance_name).then_some(key.name_id))
-                    .is_some_and(|name_id| {
-                        name_id == NameId::SUBFAMILY_NAME
-                            || name_id == NameId::TYPOGRAPHIC_SUBFAMILY_NAME
-                    })
+                && names.iter().any(|(key, string)| {
+                    *string == instance_name
+                        && (key.name_id == NameId::SUBFAMILY_NAME
+                            || key.name_id == NameId::TYPOGRAPHIC_SUBFAMILY_NAME)
+                })
             {
                 log::debug!(
                     "Reuse existing subfamily name '{instance_name}' for default instance at {default_instance_location:?}",
@@ -708,6 +708,43 @@ mod tests {
             reverse_names.get("Fam").unwrap().iter().next().unwrap(),
             &NameId::FAMILY_NAME
         );
+    }
+
+    #[test]
+    fn default_instance_name_reuse_ignores_map_order() {
+        // family, subfamily and default instance all have the same string
+        for _ in 0..32 {
+            let names = HashMap::from([
+                (
+                    NameKey::new_bmp_only(NameId::FAMILY_NAME),
+                    "Regular".to_string(),
+                ),
+                (
+                    NameKey::new_bmp_only(NameId::SUBFAMILY_NAME),
+                    "Regular".to_string(),
+                ),
+            ]);
+            let static_metadata = StaticMetadata::new(
+                1000,
+                names,
+                vec![Axis::for_test("wght")],
+                vec![NamedInstance {
+                    name: "Regular".to_string(),
+                    postscript_name: None,
+                    location: vec![(WGHT, UserCoord::new(400.0))].into(),
+                }],
+                HashSet::from([vec![(WGHT, NormalizedCoord::new(0.0))].into()]),
+                None,
+                0.0,
+                None,
+                false,
+            )
+            .unwrap();
+            assert_eq!(
+                static_metadata.reverse_names().get("Regular").unwrap(),
+                &BTreeSet::from([NameId::FAMILY_NAME, NameId::SUBFAMILY_NAME])
+            );
+        }
     }
 
     #[test]
